@@ -28,7 +28,7 @@ ASSUMPTIONS = [
     "redirect') both refusing and following with the unchanged method are accepted",
 ]
 MIN = {"quick": {"evaluations": 640000, "nontrivial": 335000, "outcomes": 6},
-       "thorough": {"evaluations": 1500000, "nontrivial": 600000, "outcomes": 6}}
+       "thorough": {"evaluations": 2700000, "nontrivial": 2000000, "outcomes": 6}}
 
 CODES = [301, 302, 303, 307, 308]
 LOCS = [b"http://a/p", b"https://a/p", b"http://a:8080/p", b"http://a:80/p", b"http://b/d/p", b"https://a:443/s/p",
